@@ -104,6 +104,8 @@ declarations:
 - decl: const std::string label(TagType tag, const std::string &prefix)
 # names at and beyond what a Fortran name may hold (63 characters for c_<name> / c_<name>_bufferify): whatever is done
 # about them is a function of the name alone
+# both qualifiers on one declaration: the order they are written in is fixed
+- decl: int poll(const volatile int *status, volatile int *flag, const volatile double level)
 - decl: bool is_the_unstructured_mesh_partition_boundary_consistent_on_all(int rank)
 - decl: bool is_the_unstructured_mesh_partition_boundary_consistent_on_rank(int rank)
 - decl: void set_name_of_the_unstructured_mesh_partition_boundary_set(const std::string &name)
